@@ -129,4 +129,10 @@ func init() {
 	c("c07-perinput-skip-ident", "C07.perinput", evaljq, "    | if $opts.catch_query then\n", "    | if $opts.catch_query and (_query_is_ident | not) then\n", "rewrite:try-inside-inputs")
 	c("c07-perinput-inputs-inside-try", "C07.perinput", evaljq, "_query_pipe($opts.input_query; .)", "_query_pipe(.; $opts.input_query)", "rewrite:try-inside-inputs")
 	c("c07-perinput-handler-raises", "C07.perinput", "pkg/interp/init.jq", "  | (_error_str([input_filename // empty]) | printerrln)\n  );", "  | (_error_str([input_filename // empty]) | printerrln)\n  | error\n  );", "on_expr_error:continues")
+
+	// ---- round 5: module loader path rewriting
+	c("c07-modpaths-wrong-field", "C07.modpaths", interp, "qi.ImportPath = rewritePath(basePath, qi.ImportPath)", "qi.ImportPath = rewritePath(basePath, qi.IncludePath)", "import:ImportPath")
+	c("c07-modpaths-guard", "C07.modpaths", interp, "if qi.ImportPath != \"\" {", "if qi.IncludePath != \"\" {", "import:ImportPath:guard")
+	c("c07-modpaths-join-swapped", "C07.modpaths", interp, "return path.Join(base, includePath)", "return path.Join(includePath, base)", ":join")
+	c("c07-modpaths-base", "C07.modpaths", interp, "basePath := path.Dir(name)", "basePath := path.Base(name)", ":base")
 }
